@@ -691,13 +691,25 @@ def updateOne (sub : Str) (kv : Key × Obj) : M Unit := do
       if retyped || old.kind.choicesDiffer nobj.kind then replaceObj key nobj old oid retyped
       else M.pure ()
 
-/-- `update_project_options(project_options, subproject)` -/
+/-- `for child in self.options.values(): if child.parent is removed: child.parent = None; child.yielding = False`
+for every removed object (the model maps over the whole heap; unregistered objects are unobservable) -/
+def unlinkChildren (ids : List Nat) : M Unit :=
+  modify (fun s => { s with heap := s.heap.map (fun c =>
+    match c.parent with
+    | some pid => if ids.contains pid then { c with parent := none, yielding := false } else c
+    | none => c) })
+
+/-- `update_project_options(project_options, subproject)`: the entries, then the removal pass — every project option
+of this (sub)project that the file no longer declares is removed and the options that yielded to it are unlinked.
+An empty `project_options` is not special: the loop does nothing and the removal pass removes them all. -/
 def updateProjectOptions (sub : Str) (objs : List (Key × Obj)) : M Unit := do
   forEach (updateOne sub) objs
-  modify (fun s =>
-    let gone := fun (k : Key) => !(objs.any (fun p => p.1 == k)) && s.isProjectOption k && k.sub == some sub
-    { s with options := s.options.filter (fun p => !(gone p.1)),
-             projectOptions := s.projectOptions.filter (fun k => !(gone k)) })
+  let s ← get
+  let gone := fun (k : Key) => !(objs.any (fun p => p.1 == k)) && s.isProjectOption k && k.sub == some sub
+  modify (fun s' =>
+    { s' with options := s'.options.filter (fun p => !(gone p.1)),
+              projectOptions := s'.projectOptions.filter (fun k => !(gone k)) })
+  unlinkChildren ((s.options.filter (fun p => gone p.1)).map (·.2))
 
 /-! ## command line re-ordering (cmdline.py:234-241) -/
 
